@@ -11,7 +11,7 @@ int main(void)
 {
 	printf("(* GENERATED from /repo headers by props/C17/gen_c17.c -- do not edit *)\n");
 	printf("From Coq Require Import NArith.\nLocal Open Scope N_scope.\n");
-	C(SQFS_BLK_DONT_COMPRESS); C(SQFS_BLK_DONT_FRAGMENT); C(SQFS_BLK_DONT_DEDUPLICATE);
+	C(SQFS_BLK_DONT_COMPRESS); C(SQFS_BLK_DONT_HASH); C(SQFS_BLK_DONT_FRAGMENT); C(SQFS_BLK_DONT_DEDUPLICATE);
 	C(SQFS_BLK_IGNORE_SPARSE); C(SQFS_BLK_USER_SETTABLE_FLAGS);
 	C(FLAG_FILE_ALREADY_MATCHED);
 	return 0;
